@@ -216,21 +216,31 @@ fn cell_of(font: &MonoFont, c: char) -> (i32, i32) {
 fn atlas_on(font: &MonoFont, x: i32, y: i32) -> Option<bool> {
     font.image.pixel(Point::new(x, y)).map(|c| c == BinaryColor::On)
 }
-/// reference pixel map of one line: set-theoretic reading of the property (spacing 0 or not)
-pub fn expected_line(font: &MonoFont, text: &str, x: i32, ytop: i32, tc: Option<u32>, bc: Option<u32>,
-                     ul: Option<u32>, st: Option<u32>) -> Result<BTreeMap<(i32, i32), u32>, String> {
+/// reference pixel map of one line: set-theoretic reading of the property (spacing 0 or not).
+/// `strict`: a cell that is not completely inside the font image is an error (built-in fonts);
+/// otherwise such a glyph draws nothing (documented behaviour of sub images).
+pub fn expected_line_ex(font: &MonoFont, text: &str, x: i32, ytop: i32, tc: Option<u32>, bc: Option<u32>,
+                        ul: Option<u32>, st: Option<u32>, strict: bool) -> Result<BTreeMap<(i32, i32), u32>, String> {
     let (cw, ch, sp) = (font.character_size.width as i32, font.character_size.height as i32, font.character_spacing as i32);
+    let isz = font.image.size();
     let mut m = BTreeMap::new();
     let n = text.chars().count() as i32;
     if tc.is_some() || bc.is_some() {
         for (k, c) in text.chars().enumerate() {
             let k = k as i32;
-            let (gx, gy) = cell_of(font, c);
+            let usable = cw > 0 && isz.width as i32 >= cw;
+            let (gx, gy) = if usable { cell_of(font, c) } else { (0, 0) };
+            let inside = usable && ch > 0 && gx + cw <= isz.width as i32 && gy + ch <= isz.height as i32;
+            if !inside && strict {
+                return Err(format!("cell of {:?} outside the font image", c));
+            }
             for dy in 0..ch {
-                for dx in 0..cw {
-                    let on = atlas_on(font, gx + dx, gy + dy).ok_or_else(|| format!("cell of {:?} outside the font image", c))?;
-                    let colr = if on { tc } else { bc };
-                    if let Some(v) = colr { m.insert((ytop + dy, x + k * (cw + sp) + dx), v); }
+                if inside {
+                    for dx in 0..cw {
+                        let on = atlas_on(font, gx + dx, gy + dy).ok_or_else(|| format!("cell of {:?} outside the font image", c))?;
+                        let colr = if on { tc } else { bc };
+                        if let Some(v) = colr { m.insert((ytop + dy, x + k * (cw + sp) + dx), v); }
+                    }
                 }
                 if k + 1 < n {
                     if let Some(v) = bc { for dx in 0..sp { m.insert((ytop + dy, x + k * (cw + sp) + cw + dx), v); } }
@@ -246,6 +256,14 @@ pub fn expected_line(font: &MonoFont, text: &str, x: i32, ytop: i32, tc: Option<
         }
     }
     Ok(m)
+}
+pub fn expected_line(font: &MonoFont, text: &str, x: i32, ytop: i32, tc: Option<u32>, bc: Option<u32>,
+                     ul: Option<u32>, st: Option<u32>) -> Result<BTreeMap<(i32, i32), u32>, String> {
+    expected_line_ex(font, text, x, ytop, tc, bc, ul, st, true)
+}
+pub fn baseline_off(font: &MonoFont, bl: Baseline) -> i32 {
+    let ch = font.character_size.height as i32;
+    match bl { Baseline::Top => 0, Baseline::Bottom => (ch - 1).max(0), Baseline::Middle => (ch - 1).max(0) / 2, Baseline::Alphabetic => font.baseline as i32 }
 }
 pub fn eff(d: &str, tc: Option<u32>) -> Option<u32> {
     match d { "0" => None, "-1" => tc, v => Some(u(v)) }
@@ -326,6 +344,25 @@ pub fn search(suite: &str, a: &[&str]) -> Option<String> {
             let n = text.chars().count() as i32;
             if rn != Point::new(x + n * font.character_size.width as i32, y) { return Some(format!("FAIL next position {:?}", rn)); }
             format!("OK {}", nat.map.len())
+        }
+        // p_c14_synth <same arguments as c14_ds>: custom fonts (spacing, any atlas row length) against the set-theoretic reference
+        "p_c14_synth" => {
+            let (spec, k) = parse_font(a);
+            let sty = &a[k..k + 4];
+            let (x, y, bl, repl) = (i(a[k + 4]), i(a[k + 5]), baseline_of(a[k + 6]), us(a[k + 7]));
+            let (map, k2) = parse_list(a, k + 8);
+            let (text, _) = parse_list(a, k2);
+            let (mapstr, text) = (to_string(&map), to_string(&text));
+            with_synth_font(&spec, repl, &mapstr, |font| {
+                let st = mk_style(font, sty);
+                let (nat, rn, it, ri) = on_both_targets!(t => st.draw_string(&text, Point::new(x, y), bl, t).unwrap());
+                if nat.map != it.map || rn != ri { return "FAIL native and draw_iter-only targets differ".to_string(); }
+                let (tc, bc) = (optc(sty[0]), optc(sty[1]));
+                let exp = match expected_line_ex(font, &text, x, y - baseline_off(font, bl), tc, bc, eff(sty[2], tc), eff(sty[3], tc), false) {
+                    Ok(m) => m, Err(e) => return format!("FAIL {}", e) };
+                if nat.map != exp { return format!("FAIL custom font line {:?}: {}", text, first_diff(&nat.map, &exp)); }
+                format!("OK {}", nat.map.len())
+            })
         }
         _ => return None,
     })
